@@ -32,3 +32,19 @@ pub mod error {
 pub open spec fn past_end(keys: Set<u64>, k: u64) -> bool {
     if keys.len() == 0 { k == 0 } else { exists|m: u64| keys.contains(m) && (forall|j: u64| keys.contains(j) ==> j <= m) && k == m + 1 }
 }
+// ---- C07: "integer-attribute assignments ... evaluate" — the value stored in a variable with the integer attribute is the value of the
+//  assigned text read as an arithmetic expression (bash manual, declare -i: "arithmetic evaluation is performed when the variable is
+//  assigned a value").  arith_value is that evaluation (abstract); for a plain decimal literal without leading zeros it is the number
+//  itself.
+pub uninterp spec fn arith_value(t: Seq<char>) -> i64;
+pub uninterp spec fn int_text(v: i64) -> Seq<char>;
+pub open spec fn is_digit_char(c: char) -> bool { '0' <= c <= '9' }
+pub open spec fn plain_decimal(t: Seq<char>) -> bool {
+    let d = if t.len() > 0 && t[0] == '-' { t.subrange(1, t.len() as int) } else { t };
+    d.len() > 0 && (d.len() == 1 || d[0] != '0') && (forall|i: int| 0 <= i < d.len() ==> is_digit_char(#[trigger] d[i]))
+}
+pub broadcast axiom fn axiom_plain_decimal_evaluates_to_itself(t: Seq<char>)
+    requires plain_decimal(t), ensures #[trigger] arith_value(t) == parse_or_0(t);
+// R14: i64::to_string -> stub
+#[verifier::external_body]
+pub fn i64_to_string(v: i64) -> (r: String) ensures r@ == int_text(v) { unimplemented!() }
